@@ -37,6 +37,13 @@ Fixpoint ty_eqb (a b : ty) {struct a} : bool :=
   | TVar x v o, TVar y u p => Nat.eqb x y && var_eqb v u && oeq o p
   | TWild v o, TWild u p => var_eqb v u && oeq o p
   | TNothing, TNothing => true
+  | TCap i u l, TCap j u' l' =>
+      (fix ieq (a b : list nat) : bool :=
+         match a, b with
+         | [], [] => true
+         | x :: a', y :: b' => Nat.eqb x y && ieq a' b'
+         | _, _ => false
+         end) i j && oeq u u' && oeq l l'
   | _, _ => false
   end.
 
